@@ -219,22 +219,55 @@ func VC13LockExclusive() {
 	vrt.Assert("all-operations-ran", s1.writes+s1.syncs+s2.writes+s2.syncs == 2*nsinks)
 }
 
-//verif: prop=C13 bounds="BufferedWriteSyncer of Size 1..4 over a recording sink: two writes of 0..6 symbolic bytes each (buffered, exactly fitting, larger than the buffer) report (len(p), nil) and leave the caller's slice untouched"
+//verif: prop=C13 bounds="BufferedWriteSyncer of Size 1..4 over a recording sink: two writes of 0..6 symbolic bytes each (buffered, exactly fitting, larger than the buffer) report (len(p), nil) and leave the caller's slice untouched; over a sink that returns short counts (with or without an error) a short count is never reported without an error"
 func VC13Buffered() {
 	S := vrt.IntRange("S", 1, 4)
 	sink := &vBytesSink{}
-	b := &BufferedWriteSyncer{WS: sink, Size: S, FlushInterval: time.Hour, Clock: &vTickClock{ch: make(chan time.Time, 1)}}
+	// the wrapped sink may itself break the contract (a short count without an error) or fail
+	misbehave := vrt.Choice("sink", 3)
+	var ws WriteSyncer = sink
+	switch misbehave {
+	case 1:
+		ws = vShortSink{sink, nil}
+	case 2:
+		ws = vShortSink{sink, errors.New("sink failed")}
+	}
+	b := &BufferedWriteSyncer{WS: ws, Size: S, FlushInterval: time.Hour, Clock: &vTickClock{ch: make(chan time.Time, 1)}}
 	for i := 0; i < 2; i++ {
 		L := vrt.IntRange(fmt.Sprintf("len%d", i), 0, 6)
 		p := vrt.Bytes(fmt.Sprintf("p%d", i), L)
 		orig := string(p)
 		n, err := b.Write(p)
-		vrt.Assert("reports-len-p-and-nil", n == L && err == nil)
+		if misbehave == 0 {
+			vrt.Assert("reports-len-p-and-nil", n == L && err == nil)
+		} else {
+			vrt.Assert("count-within-0-and-len-p", n >= 0 && n <= L)
+			vrt.Assert("short-count-comes-with-an-error", n == L || err != nil)
+		}
 		vrt.Assert("caller-buffer-untouched", string(p) == orig)
 	}
-	vrt.Assert("stop-nil", b.Stop() == nil)
+	if misbehave == 0 {
+		vrt.Assert("stop-nil", b.Stop() == nil)
+	} else {
+		_ = b.Stop()
+	}
 	vrt.Observe("sink-writes", len(sink.writes))
 }
+
+// vShortSink accepts all but the last byte of any write longer than one byte, with the given error (possibly none).
+type vShortSink struct {
+	to  *vBytesSink
+	err error
+}
+
+func (s vShortSink) Write(p []byte) (int, error) {
+	if len(p) > 1 {
+		n, _ := s.to.Write(p[:len(p)-1])
+		return n, s.err
+	}
+	return s.to.Write(p)
+}
+func (s vShortSink) Sync() error { return nil }
 
 //verif: prop=C13 bounds="multi-WriteSyncer whose members are themselves multi-WriteSyncers (slice-typed, hence uncomparable, sinks) and a sink listed twice: Write and Sync reach every listed sink once per listing, counts and errors aggregate as for flat lists, no panic"
 func VC13MultiNested() {
